@@ -260,9 +260,12 @@ def generating_set(rules, V):
     return gen
 
 
-def treesums(rules, V, num, pivots):
+def treesums(rules, V, num, pivots, algebraic=None):
     """Total weight of all derivation trees per nonterminal (least solution), in closed form
-    when every SCC of the dependency graph is linear; OutOfBounds otherwise."""
+    when every SCC of the dependency graph is linear; OutOfBounds otherwise -- unless `algebraic` is a
+    list: then a non-linear SCC gets one unknown Z[X] per nonterminal, constrained by its own equation
+    Z[X] = F_X(Z) and Z[X] > 0 (constraints appended to `algebraic`): every identity that follows from the
+    fixed-point equations alone can still be decided.  (Concrete numbers: least solution by iteration, in floats.)"""
     rules = [r for r in _live_rules(rules) if r[1] not in V]  # a symbol of V is a terminal: its "rules" are never used
     gen = generating_set(rules, V)
     rules = [r for r in rules if r[1] in gen and all(y in gen for y in r[2])]
@@ -284,7 +287,10 @@ def treesums(rules, V, num, pivots):
                 continue
             inside = [y for y in b if y in cs]
             if len(inside) > 1:
-                raise OutOfBounds("non-linear recursive component in the treesum system")
+                if algebraic is None:
+                    raise OutOfBounds("non-linear recursive component in the treesum system")
+                _algebraic_component(rules, V, comp, Z, num, algebraic)
+                break
             coef = w
             for y in b:
                 if y in V or y in cs:
@@ -294,10 +300,51 @@ def treesums(rules, V, num, pivots):
                 U[idx[h]][idx[inside[0]]] = num.add(U[idx[h]][idx[inside[0]]], coef)
             else:
                 c[idx[h]] = num.add(c[idx[h]], coef)
-        y = solve_lfp(U, c, num, pivots)
-        for X in comp:
-            Z[X] = y[idx[X]]
+        else:
+            y = solve_lfp(U, c, num, pivots)
+            for X in comp:
+                Z[X] = y[idx[X]]
     return Z
+
+
+def _algebraic_component(rules, V, comp, Z, num, algebraic):
+    cs = set(comp)
+    if num.symbolic:
+        for X in comp:
+            Z[X] = z3.Real(f"Z[{X!r}]")
+        for X in comp:
+            rhs = num.zero
+            for w, h, b in rules:
+                if h == X:
+                    rhs = num.add(rhs, num.prod([w] + [Z[y] for y in b if y not in V]))
+            algebraic.append(Z[X] == rhs)
+            algebraic.append(Z[X] > 0)
+        return
+    # concrete: Kleene iteration from zero (floats); the caller compares with a tolerance
+    val = {X: 0.0 for X in comp}
+    for _ in range(200000):
+        new = {}
+        for X in comp:
+            tot = 0.0
+            for w, h, b in rules:
+                if h == X:
+                    t = float(w)
+                    for y in b:
+                        if y not in V:
+                            t *= val[y] if y in cs else float(Z[y])
+                    tot += t
+            new[X] = tot
+        done = max(abs(new[X] - val[X]) for X in comp) < 1e-15
+        val = new
+        if done:
+            break
+    else:
+        raise OverflowError("divergent non-linear system")
+    if any(v > 1e12 for v in val.values()):
+        raise OverflowError("divergent non-linear system")
+    for X in comp:
+        Z[X] = Fraction(val[X])
+    algebraic.append(True)
 
 
 def null_weights(rules, V, num, pivots):
